@@ -65,7 +65,9 @@ extern void *mpt_array_set(MPT_STRUCT(array) *arr, const MPT_STRUCT(type_traits)
 	total = pos + len;
 	
 	if (!buf) {
-		buf = _mpt_buffer_alloc(total, 0);
+		if (!(buf = _mpt_buffer_alloc(total, 0))) {
+			return 0;
+		}
 		buf->_content_traits = traits;
 		arr->_buf = buf;
 	}
